@@ -92,6 +92,11 @@ def base(root, url, rate=(20, "1s")):
 
 def write(path, cfg):
     os.makedirs(os.path.dirname(path), exist_ok=True)
+    if isinstance(cfg, str) and cfg.startswith("SYMLINK:"):
+        if os.path.lexists(path):
+            os.remove(path)
+        os.symlink(cfg[len("SYMLINK:"):], path)
+        return path
     with open(path, "w") as f:
         f.write(cfg if isinstance(cfg, str) else emit(cfg))
     return path
@@ -200,6 +205,18 @@ def hazards(root, url):
     c["include"] = ["inc_a.toml"]
     yield ("include-cycle-3", c, {"inc_a.toml": 'include = ["inc_b.toml"]\n',
                                   "inc_b.toml": 'include = ["inc_a.toml", "main.toml", "*.toml"]\n'})
+    # cycles that close through ANOTHER SPELLING of a file already being read (`..`, a symbolic link to
+    # the file, a symbolic link to its directory); an extra "file" whose text starts with SYMLINK: is a link
+    c = base(root, url)
+    c["include"] = ["sub/../main.toml"]
+    yield ("include-cycle-dotdot", c, {"sub/keep.txt": "x\n"})
+    c = base(root, url)
+    c["include"] = ["link.toml"]
+    yield ("include-cycle-symlink", c, {"link.toml": "SYMLINK:main.toml"})
+    c = base(root, url)
+    c["include"] = ["enabled/site.toml"]
+    yield ("include-cycle-symlinked-dir", c, {"available/site.toml": 'include = ["../main.toml"]\n',
+                                               "enabled": "SYMLINK:available"})
     c = base(root, url)
     c["include"] = ["missing-*.toml", "nope.toml"]
     yield ("include-missing", c, {})
